@@ -490,6 +490,9 @@ pub fn execute(scn: &Scn, su: &Arc<Setup>, rf: &Reference, strategy: Strategy, s
         stall_secs: 30,
     };
     let res = sched::simulate(cfg, bodies, Some(probe));
+    if res.inconclusive {
+        return Err("given up unjudged: stall after a baton hand-over".into());
+    }
     let mut bad = res.violation.clone().map(|(c, d)| {
         let part = if c == "invariant" { d.split(' ').next().unwrap_or("cache").to_string() } else { "schedule".to_string() };
         (c, part, d)
